@@ -88,9 +88,12 @@ def classify(line):
     k, sch = f["kind"], f.get("scheme")
     if k == "dst-drift" and f.get("dst") == "1":
         return "F19"
-    if sch in ("D", "T") and f.get("nonmono") == "1" and k in ("order", "not-suffix", "backup-bound", "backup-shrink", "not-in-cur", "dup-id"):
+    # (ow-off-deleted under a dated scheme: a rotation renamed onto a file the sink does not track — same date/second
+    #  reached again by a backwards timestamp (F14) or left untracked by the start-up recovery (F15); witnesses
+    #  C14_dated_same_second_restart_clobbers / C14_dated_backwards_restart_breaks_order)
+    if sch in ("D", "T") and f.get("nonmono") == "1" and k in ("order", "not-suffix", "backup-bound", "backup-shrink", "not-in-cur", "dup-id", "ow-off-deleted"):
         return "F14"
-    if sch in ("D", "T") and f.get("unrecovered") == "1" and k in ("not-suffix", "backup-bound", "backup-shrink"):
+    if sch in ("D", "T") and f.get("unrecovered") == "1" and k in ("not-suffix", "backup-bound", "backup-shrink", "ow-off-deleted"):
         return "F15"
     if k == "backup-shrink" and f.get("overstart") == "1":
         return "F18"
